@@ -315,9 +315,10 @@ class Eval:
             if k in a and k in b:
                 out[k] = T.phi(c, a[k], b[k])
             elif k in a:
-                out[k] = T.phi(c, a[k], ("undef", str(k))) if not isinstance(k, tuple) else a[k]
+                # a heap entry missing on one side still holds whatever the attribute held before (the key term itself)
+                out[k] = T.phi(c, a[k], ("undef", str(k))) if not isinstance(k, tuple) else T.phi(c, a[k], k)
             else:
-                out[k] = T.phi(c, ("undef", str(k)), b[k]) if not isinstance(k, tuple) else b[k]
+                out[k] = T.phi(c, ("undef", str(k)), b[k]) if not isinstance(k, tuple) else T.phi(c, k, b[k])
         return out
 
     @staticmethod
